@@ -219,6 +219,8 @@ def prepare(h, symtab, mangled, prettymap, wd):
     os.makedirs(wd, exist_ok=True)
     g = os.path.join(wd, "h.goto")
     lib = VERIF_LIB_CAP_C if h.alloc_cap else (VERIF_LIB_TYPED_C if h.typed_heap else VERIF_LIB_C)
+    if h.typed_heap == "big":
+        lib = os.path.join(HARNESS, "verif_lib_typed_big.c")
     steps = [
         ["goto-cc", symtab, lib, "-o", g],
         ["goto-cc", g, "--function", mangled, "-o", g],
@@ -322,6 +324,8 @@ def cbmc_cmd(h, g, info, trace=False):
         c += ["--unwind", str(h.unwind)]
     if info["unwindset"]:
         c += ["--unwindset", ",".join(info["unwindset"])]
+    if h.typed_heap == "big":
+        c += ["--max-field-sensitivity-array-size", "512"]
     if trace:
         c += ["--trace"]
     c += [g, "--json-ui", "--verbosity", "8"]
